@@ -1047,7 +1047,10 @@ func (s *scanner) ScanBytes(accept func(b byte) bool) error {
 		if err == io.EOF && !empty {
 			return nil
 		}
-		if s.used == 0 {
+		if s.pos >= s.used {
+			// No new data: either the input has ended, or refill reported
+			// a latched read error (in which case it leaves the consumed
+			// buffer in place, so s.used need not be zero).
 			if err == nil {
 				err = io.EOF
 			}
